@@ -2,6 +2,8 @@
 
 package server
 
+import "time"
+
 // VerifKeepAliveFire makes the ping timer (wait = false) or the kick timer (wait = true) of k fire now: the
 // harness cannot wait 15 s / 30 s.  time.Timer.Reset may be called from any goroutine.
 func VerifKeepAliveFire(k *KeepAlive, wait bool) {
@@ -19,3 +21,37 @@ func VerifKeepAliveSizes(k *KeepAlive) (index, ping, wait int) {
 
 // VerifPrivateKey exposes the lazily created RSA key of the login handler (double-checked locking).
 func (d *MojangLoginHandler) VerifPrivateKey() (any, error) { return d.getPrivateKey() }
+
+// VerifKeepAliveApply calls the handler the Run goroutine would call for one event (Run serialises them);
+// op: j = join, l = left, t = tick, p = ping timer, k = kick timer.  Returns true when the call panicked.
+func VerifKeepAliveApply(k *KeepAlive, op byte, c KeepAliveClient) (panicked bool) {
+	defer func() {
+		if r := recover(); r != nil {
+			panicked = true
+		}
+	}()
+	switch op {
+	case 'j':
+		k.pushPlayer(c)
+	case 'l':
+		k.removePlayer(c)
+	case 't':
+		k.tickPlayer(c)
+	case 'p':
+		k.pingPlayer(time.Now())
+	case 'k':
+		k.kickPlayer()
+	}
+	return false
+}
+
+// VerifKeepAliveLists returns the clients of pingList and waitList in list order.
+func VerifKeepAliveLists(k *KeepAlive) (ping, wait []KeepAliveClient) {
+	for e := k.pingList.Front(); e != nil; e = e.Next() {
+		ping = append(ping, e.Value.(keepAliveItem).player)
+	}
+	for e := k.waitList.Front(); e != nil; e = e.Next() {
+		wait = append(wait, e.Value.(keepAliveItem).player)
+	}
+	return
+}
